@@ -4,6 +4,7 @@ import (
 	"fmt"
 	"math"
 	"strconv"
+	"strings"
 	"time"
 
 	"verif/harness/internal/rng"
@@ -291,7 +292,7 @@ func (g *Gen) primTests(pk string) []TestSpec {
 			case "prefix", "suffix", "contains":
 				t.S = rng.Pick(r, []string{"a", "ab", "", "é", "1", "x", "!"})
 			case "oneof":
-				k := r.Range(1, 3)
+				k := r.Range(0, 3) // (an empty enum admits nothing)
 				if r.P(1, 5) {
 					k = r.Range(9, 20) // a long enum
 				}
@@ -308,7 +309,7 @@ func (g *Gen) primTests(pk string) []TestSpec {
 		case "int", "i32", "i64", "f64", "f32":
 			if r.P(1, 5) {
 				t.Name = "oneof"
-				k := r.Range(1, 3)
+				k := r.Range(0, 3)
 				if r.P(1, 5) {
 					k = r.Range(9, 20) // a long enum
 				}
@@ -556,7 +557,8 @@ func (g *Gen) NodeOf(kind string, depth int) *Node {
 		n.Tests = g.primTests(n.PK)
 		n.Posts = g.posts(n)
 		if n.PK == "time" && r.P(35, 100) {
-			n.Layout = rng.Pick(r, []string{"2006-01-02", "20060102", "2006", "02/01/2006 15:04", "20060102150405"})
+			// (layouts with a zone element keep the input's offset: the documented coercion is time.Parse(layout, input))
+			n.Layout = rng.Pick(r, []string{"2006-01-02", "20060102", "2006", "02/01/2006 15:04", "20060102150405", time.RFC3339, "2006-01-02 15:04:05 -0700", time.RFC3339Nano})
 		}
 		if g.Coercers && r.P(12, 100) {
 			switch n.PK {
@@ -839,8 +841,13 @@ func (g *Gen) Input(n *Node) V {
 			layout := time.RFC3339
 			if n.Layout != "" {
 				layout = n.Layout
+				if strings.Contains(layout, "07") && r.P(1, 2) {
+					// a layout with a zone element fed an instant written with a non-zero offset
+					zt := t.In(time.FixedZone("", rng.Pick(r, []int{2 * 3600, -5 * 3600, 5*3600 + 1800})))
+					return VStr(zt.Format(layout))
+				}
 			}
-			return rng.Pick(r, []V{VTime(t), VTime(g.zoned(t)), VInt(t.Unix()), {K: "i", IK: "i64", I: t.Unix()}, VStr(t.Format(time.RFC3339)), VStr(g.zoned(t).Format(time.RFC3339)), VStr(t.Format(layout)), VStr(t.Format(layout)),
+			return rng.Pick(r, []V{VTime(t), VTime(g.zoned(t)), VInt(t.Unix()), {K: "i", IK: "i64", I: t.Unix()}, VStr(t.Format(time.RFC3339)), VStr(g.zoned(t).Format(time.RFC3339)), VStr(t.Format(layout)), VStr(g.zoned(t).Format(layout)),
 				VStr("2024-05-06"), VStr("zz"), VF64(1), VStr("20240131"), VStr("1733007600"), VStr("2024")})
 		}
 	case "slice":
